@@ -30,7 +30,7 @@ type Reg struct {
 	MTypes map[string]bool   // event types the broker knows (graph exists)
 
 	History     []string
-	LastFailed  bool // the last registry call returned an error / false
+	LastFailed  bool            // the last registry call returned an error / false
 	CloseErrIDs map[string]bool // node ids whose objects fail on Close
 	sends       int
 }
@@ -214,7 +214,9 @@ func (r *Reg) closes() map[*Node]int {
 	return m
 }
 
-func (r *Reg) RemovePipelineAndNodes(typ, pid string) string { return r.removePipelineAndNodes(ctxBG, typ, pid) }
+func (r *Reg) RemovePipelineAndNodes(typ, pid string) string {
+	return r.removePipelineAndNodes(ctxBG, typ, pid)
+}
 
 // RemovePipelineAndNodesCancelled is the same call with an already cancelled context.
 func (r *Reg) RemovePipelineAndNodesCancelled(typ, pid string) string {
